@@ -27,6 +27,11 @@ import (
 // one hash slot follows the durable outbox in source-index order; any delta that
 // was delivered before may be delivered again at any later time, in any order,
 // in the same batch, after restarts of either side and after the switch.
+// The outbox may start some batches before the snapshot is exported ("overlap"
+// runs); the driver records the source applied index of the export (the
+// snapshotAt of the design plan) and never delivers a delta at or below it:
+// such a command is inside the snapshot, the target holds no applied-delta
+// record for it, and re-applying it over the final row is not idempotent.
 //
 // Reference: one logical content per hash slot. ref[h] follows the writes the
 // owner accepted; tcopy follows what T was given for A (snapshot, then each
@@ -160,6 +165,8 @@ type c39World struct {
 	sOwnsA       bool
 	snap         metadb.SlotSnapshot
 	snapRef      *logical
+	snapshotAt   uint64            // S applied index at the snapshot export
+	covered      map[uint64]bool   // outbox rows at or below snapshotAt: inside the snapshot, never delivered
 	sCmd         map[uint64]*dcmd  // S log index -> accepted ordinary command
 	sBytes       map[uint64][]byte // S log index -> payload that must be in the outbox
 	outbox       map[uint64][]byte // expected outbox rows (A, S->T)
@@ -817,15 +824,21 @@ func (w *c39World) deliver(tag string, withDups bool) bool {
 	return true
 }
 
-// unackedApplied lists source indexes T applied that S has not been told about.
+// unackedApplied lists source indexes T holds (applied as a delta, or contained in
+// the imported snapshot) that S has not been told about.
 func (w *c39World) unackedApplied() []uint64 {
-	var out []uint64
-	for _, k := range simkit.SortedIntKeys(w.delivered) {
+	seen := map[uint64]bool{}
+	for k := range w.delivered {
 		if !w.acked[k] {
-			out = append(out, k)
+			seen[k] = true
 		}
 	}
-	return out
+	for k := range w.covered {
+		if !w.acked[k] {
+			seen[k] = true
+		}
+	}
+	return simkit.SortedIntKeys(seen)
 }
 
 func ackItem(idx, tgt uint64) sItem {
@@ -869,6 +882,9 @@ func (w *c39World) progress(tag string, quiet bool) bool {
 			return true
 		}
 		w.snap, w.snapRef = snap, w.ref[hsA].clone()
+		// the driver remembers the source applied index of the export (the sim is the
+		// source log, so it is exact): deltas at or below it are inside the snapshot
+		w.snapshotAt = w.S.nextIndex - 1
 		w.phase = 1
 		r.Logf("%s DRIVER start: outgoing target set, snapshot of %d bytes exported at S index %d", tag, len(snap.Data), w.S.nextIndex-1)
 	case 1:
@@ -881,6 +897,21 @@ func (w *c39World) progress(tag string, quiet bool) bool {
 		}
 		w.tcopy = w.snapRef
 		w.T.setIncoming([]uint16{hsA})
+		// Outbox rows at or below the export index are already contained in the snapshot.
+		// Applying them again on top of it is not a replay the state machine can detect
+		// (the target has no applied-delta record for them) and is not idempotent over the
+		// final row (e.g. hide on a tombstoned row is a no-op on S, but not on the revived
+		// row in the snapshot), so the driver never delivers them: it starts after the
+		// export index and only acknowledges them.
+		if w.snapshotAt > w.firstDel {
+			w.firstDel = w.snapshotAt
+		}
+		for _, idx := range simkit.SortedIntKeys(w.outbox) {
+			if idx <= w.snapshotAt {
+				w.covered[idx] = true
+				r.Probe("delta_covered_by_snapshot")
+			}
+		}
 		w.phase = 2
 		r.Logf("%s DRIVER snapshot imported into T", tag)
 	case 2:
@@ -952,7 +983,7 @@ func runC39(r *simkit.Run) {
 	overlap := t.Chance(1, 3)
 	r.Config["faults"], r.Config["steps"], r.Config["warmup"], r.Config["overlap"] = faults, steps, warm, overlap
 	w := &c39World{r: r, ref: map[uint16]*logical{hsA: newLogical(), hsB: newLogical(), hsC: newLogical()},
-		overlap: overlap, sOwnsA: true, sCmd: map[uint64]*dcmd{}, sBytes: map[uint64][]byte{}, outbox: map[uint64][]byte{},
+		overlap: overlap, sOwnsA: true, covered: map[uint64]bool{}, sCmd: map[uint64]*dcmd{}, sBytes: map[uint64][]byte{}, outbox: map[uint64][]byte{},
 		delivered: map[uint64][]byte{}, acked: map[uint64]bool{}, sentEv: map[uint16][]metadb.MessageEventAppend{}, verCount: map[string]uint64{}}
 	w.S = newSlotNode(r, "S", c39S, []uint16{hsA, hsB}, disk)
 	if r.InfraErr != "" {
